@@ -346,6 +346,7 @@ const (
 type vfSpec struct {
 	Name          string
 	AskTimeout    time.Duration // WithActorDefaultAskTimeout (0 = not set)
+	DecisionDelay time.Duration // the decision maker sleeps this long from its second call on
 	Children      []*vfSpec // spawned from OnLaunch of every incarnation
 	Strategy      int
 	Decisions     []vivid.SupervisionDecision // i-th call -> decision (last repeats)
@@ -403,6 +404,10 @@ func (w *vfWorld) options(spec *vfSpec) []vivid.ActorOption {
 			w.decLog = append(w.decLog, fmt.Sprintf("%s<-%s", spec.Name, child))
 			w.mu.Unlock()
 			w.add(vfEv{Kind: "api", Path: spec.Name, Msg: "decision", ID: -1, Aux: child})
+			if spec.DecisionDelay > 0 && n >= 1 {
+				time.Sleep(spec.DecisionDelay) // a supervisor that takes its time over a repeated failure (virtual time)
+			}
+			w.add(vfEv{Kind: "api", Path: spec.Name, Msg: "decided", ID: -1, Aux: child})
 			d := spec.Decisions[len(spec.Decisions)-1]
 			if n < len(spec.Decisions) {
 				d = spec.Decisions[n]
@@ -442,6 +447,7 @@ func (w *vfWorld) spawnTop(spec *vfSpec) (vivid.ActorRef, error) {
 }
 
 func (a *vfActor) fail(ctx vivid.ActorContext, what string) {
+	a.w.add(vfEv{Kind: "api", Path: ctx.Ref().GetPath(), Inst: a.inst, Msg: "fail", ID: -1, Aux: what})
 	if a.spec.FailMode == 1 {
 		ctx.Failed("vf-failed:" + what)
 	}
